@@ -255,6 +255,10 @@ func classifyBottom(scc []key) *convFinding {
 	class := "livelock"
 	if len(scc) == 1 {
 		switch {
+		case s.scalingPending():
+			// every sync still sees "desired-replicas annotation != Deployment replicas" on an active ReplicaSet
+			// and takes the scaling path, which changes nothing: the scale event is never consumed
+			class = "stuck/scale-event-never-consumed"
 		case !s.RS[idxNew].Present:
 			class = "stuck/new-absent"
 		case s.RS[idxNew].S < s.R:
